@@ -29,7 +29,7 @@ PROP = dict(
     required_theorems=["Octo.C10.is_refl", "Octo.C10.is_trans", "Octo.C10.is_sound", "Octo.C10.sum_idem",
                        "Octo.C10.sum_upper_partial", "Octo.C10.sum_upper_l", "Octo.C10.sum_upper_r", "Octo.C10.sum_wf",
                        "Octo.C10.sum_least", "Octo.C10.sum_comm", "Octo.C10.sum_fuel_mono", "Octo.C10.typeIds_tie", "Octo.C10.typeRelations_tie",
-                       "Octo.C10.inter_sub", "Octo.C10.inter_sub_l", "Octo.C10.inter_sub_r", "Octo.C10.inter_wf", "Octo.C10.sum_upper_recfree", "Octo.C10.typeOf_conforms_recfree", "Octo.C10.typeOf_wf",
+                       "Octo.C10.inter_sub", "Octo.C10.inter_sub_l", "Octo.C10.inter_sub_r", "Octo.C10.inter_wf", "Octo.C10.sum_upper_recfree", "Octo.C10.typeOf_conforms_recfree", "Octo.C10.typeOf_wf", "Octo.C10.sum_terminates", "Octo.C10.sum_total", "Octo.C10.sum_lub", "Octo.C10.inter_total", "Octo.C10.typeOf_total",
                        "Octo.C10.nonNullable_spec", "Octo.C10.nonNullable_sub", "Octo.C10.typeOf_conforms",
                        "Octo.C10.C10_refuted", "Octo.C10.C10_partial", "Octo.C10.sum_upper_refuted",
                        "Octo.C10.typeOf_refuted", "Octo.C10.raw_inter_refuted", "Octo.C10.raw_typeOf_refuted"],
@@ -48,13 +48,14 @@ PROP = dict(
                  "unions have at most 12 alternatives (sort.Slice is then a stable insertion sort; well-formed unions have <= 10)",
                  "binary laws (upper bound, commutativity, intersection, NonNullable spec) are stated for well-formed types: plain "
                  "union alternatives with distinct TypeIDs, strictly sorted struct field names — the shape TypeSum produces",
-                 "TypeSum terminates within the model's default fuel 2*(size a + size b) + 8 (the driver prints `fuel` otherwise; "
-                 "never observed); theorems hold for every fuel"],
+                 "on malformed type literals (outside wf) TypeSum's termination within the model's default fuel "
+                 "2*(size a + size b) + 8 is tested, not proved (the driver prints `fuel` otherwise; never observed); on well-formed "
+                 "types it is proved (sum_terminates); all theorems hold for every fuel"],
     trusted=["Go compiler and runtime", "Go map semantics and sort.Slice (modelled: last-binding-wins lookup, sorted unique keys, "
              "stable insertion sort by TypeID)"],
     # MANIFEST fields
     level_text="Lean theorems for types/values of any nesting depth: Is is reflexive, transitive and sound for `value matches type`; "
-               "TypeSum is idempotent, preserves well-formedness, is an upper bound under ShapeCompatible and the least upper bound "
+               "TypeSum terminates on well-formed types, is idempotent, preserves well-formedness, is an upper bound under ShapeCompatible and the least upper bound "
                "among well-formed types, hence commutative up to Equals; TypeIntersection is contained in both operands; NonNullable "
                "removes exactly NULL; every value matches Value.Type() under ShapeCompatible element chains (Octo.C10.C10_partial). "
                "The full statement is refuted with concrete witnesses (Octo.C10.C10_refuted: TypeSum of shape-mismatched structs/tuples "
@@ -64,7 +65,7 @@ PROP = dict(
                "typesum-shape-mismatch, typeof-list-shape-mismatch); binary laws are stated on well-formed types. Two defects were "
                "repaired by fix: commits (TypeIntersection loop-variable aliasing, Value.Type of structs). Trusted: Lean kernel; "
                "axioms propext, Classical.choice, Quot.sound; the correspondence harness; Go runtime, map and sort.Slice semantics; "
-               "termination of TypeSum within the default fuel is tested, not proved.",
+               "termination of TypeSum is proved for well-formed types (sum_terminates), tested for malformed literals.",
     technique="Lean 4 proof (induction on fuel / type size) + model/implementation correspondence",
     design_ref="DESIGN.md §3 C10",
 )
